@@ -801,3 +801,69 @@ Proof.
       { exfalso. rewrite E4, W2 in U2. rewrite U2, Hck in Ha4. discriminate Ha4. }
       apply Hold. rewrite <- Hu. symmetry. apply is_used_frame; apply Hfr; try assumption; try lia; Z.div_mod_to_equations; lia.
 Qed.
+
+(* ---------- frames: an operation writes header words only ----------
+   [hframe S m m']: every word that is not one of the four header words of an address in S is the
+   same in m and m'. *)
+Definition hk (k : Z) : Prop := k = 0 \/ k = 8 \/ k = 16 \/ k = 24.
+Definition hframe (S : Z -> Prop) (m m' : mem) : Prop :=
+  forall w, (forall h k, S h -> hk k -> w <> h + k) -> mget m' w = mget m w.
+
+Lemma hframe_refl (S : Z -> Prop) m : hframe S m m.
+Proof. intros w _. reflexivity. Qed.
+
+Lemma hframe_trans (S : Z -> Prop) m1 m2 m3 : hframe S m1 m2 -> hframe S m2 m3 -> hframe S m1 m3.
+Proof. intros H1 H2 w Hw. rewrite (H2 w Hw). apply H1. exact Hw. Qed.
+
+Lemma hframe_mono (S S' : Z -> Prop) m m' : (forall h, S h -> S' h) -> hframe S m m' -> hframe S' m m'.
+Proof. intros Hs H w Hw. apply H. intros h k Hh Hk. apply Hw; auto. Qed.
+
+Lemma hframe_mset (S : Z -> Prop) m h k v : S h -> hk k -> hframe S m (mset m (h + k) v).
+Proof. intros Hh Hk w Hw. apply mget_mset_other. apply Hw; assumption. Qed.
+
+Lemma hframe_set_used (S : Z -> Prop) m a : S a -> hframe S m (set_used m a).
+Proof.
+  intros Ha w Hw. apply set_used_frame; apply Hw; unfold hk; auto.
+Qed.
+
+Lemma M1_hframe (S : Z -> Prop) hs he m bins_c chunks bins_a i a :
+  MI hs he m bins_c chunks bins_a -> 0 <= i < BIN_COUNT -> In a (bin_nth bins_a i) ->
+  (forall b, is_hdr he chunks b -> S b) -> hframe S m (unlink_mem m a).
+Proof.
+  intros HM Hi Ha HS. destruct (M1_unlink hs he m bins_c chunks bins_a i a HM Hi Ha) as (bc & _ & _ & Hfr).
+  intros w Hw. apply Hfr. intros b Hb _.
+  destruct (mi_member_hdr _ _ _ _ _ _ HM i b Hi Hb) as (Hbh & _).
+  split; apply Hw; unfold hk; auto.
+Qed.
+
+Lemma M2_hframe (S : Z -> Prop) hs he m bins_c chunks bins_a x bins_c' m' :
+  MI hs he m bins_c chunks bins_a -> In x chunks -> c_used x = false ->
+  (forall i, 0 <= i < BIN_COUNT -> ~ In (c_addr x) (bin_nth bins_a i)) ->
+  add_node bins_c m (c_addr x) = (bins_c', m') ->
+  (forall b, is_hdr he chunks b -> S b) -> hframe S m m'.
+Proof.
+  intros HM Hx Hf Hnot Hadd HS.
+  destruct (M2_push hs he m bins_c chunks bins_a x HM Hx Hf Hnot) as (bc & m2 & Hadd2 & _ & Hfr).
+  rewrite Hadd in Hadd2. inversion Hadd2; subst bc m2.
+  assert (Hxh : S (c_addr x)) by (apply HS; left; apply in_map; exact Hx).
+  intros w Hw. apply Hfr; try (apply Hw; unfold hk; auto).
+  intros b Hb. pose proof (get_bin_index_range (c_sz x)) as Hi.
+  destruct (mi_member_hdr _ _ _ _ _ _ HM _ b Hi Hb) as (Hbh & _). apply Hw; unfold hk; auto.
+Qed.
+
+(* the header addresses of two chunk lists (before / after an operation) *)
+Definition hdrs2 (he : Z) (l1 l2 : list chunk) : Z -> Prop := fun h => is_hdr he l1 h \/ is_hdr he l2 h.
+
+Ltac hdr_solve :=
+  unfold hdrs2, is_hdr in *; rewrite ?map_app in *; cbn [map c_addr] in *; rewrite ?in_app_iff in *; cbn [In] in *; tauto.
+
+Lemma next_is_hdr he pre x post : is_hdr he (pre ++ x :: post) (hd he (map c_addr post)).
+Proof.
+  destruct post as [|p0 r]; cbn [map hd]; [right; reflexivity|]. left. rewrite map_app. apply in_or_app. right. right. left. reflexivity.
+Qed.
+
+Lemma hframe_step (S : Z -> Prop) h k m m1 w v :
+  S h -> hk k -> w = h + k -> hframe S m m1 -> hframe S m (mset m1 w v).
+Proof. intros Hh Hk -> H. eapply hframe_trans; [exact H | apply hframe_mset; assumption]. Qed.
+
+Ltac hk_solve := unfold hk; lia.
